@@ -234,7 +234,7 @@ def run_check(prop, tier, base_seed, runs_override=None, workers=None):
     cov['violations_not_reproducible_from_seed'] = len(unreproducible)
     cov['known_findings_hit'] = known_hit
     if hasattr(m, 'cross_interpreter') and prop == 'C06':
-        cov['cross_interpreter_seeds_compared'] = min(300, len(seeds))
+        cov['cross_interpreter_seeds_compared'] = min(150, len(seeds))
         cov['cross_interpreter_mismatches'] = len(xproc)
     cov['regression_histories_replayed'] = regress
     cov['components'] = COMPONENTS
